@@ -49,6 +49,12 @@ func (l *wlog) write(w io.Writer, p []byte) {
 		l.b.Write(p)
 		l.mu.Unlock()
 	}
+	if len(p)%5 == 3 {
+		// handlers also copy from a source (a file, an upstream body): io.Copy probes source and destination for WriterTo /
+		// ReaderFrom; this source has neither and hands over its last bytes TOGETHER with io.EOF, as bodies of known length do
+		io.Copy(w, &lastWithEOF{b: append([]byte(nil), p...)})
+		return
+	}
 	if len(p)%2 == 1 {
 		// handlers also write strings; io.WriteString uses a WriteString method when the writer offers one
 		io.WriteString(w, string(p))
@@ -60,6 +66,32 @@ func (l *wlog) write(w io.Writer, p []byte) {
 	for i := range scratch {
 		scratch[i] = '#'
 	}
+}
+
+// lastWithEOF is an io.Reader (nothing else) that delivers its data in two reads, the second one returning (n > 0, io.EOF).
+type lastWithEOF struct {
+	b    []byte
+	half bool
+}
+
+func (l *lastWithEOF) Read(p []byte) (int, error) {
+	if len(l.b) == 0 {
+		return 0, io.EOF
+	}
+	n := len(l.b)
+	if !l.half && n > 1 {
+		n /= 2
+	}
+	l.half = true
+	if n > len(p) {
+		n = len(p)
+	}
+	copy(p, l.b[:n])
+	l.b = l.b[n:]
+	if len(l.b) == 0 {
+		return n, io.EOF
+	}
+	return n, nil
 }
 
 // plainProvider is a custom CompressorProvider without pooling.
